@@ -145,10 +145,15 @@ def _trace_shard(args):
     rej = []
     out = r.stdout
     pos = 0
+    rx = re.compile(r'<<\s*"REJECT"\s*,')
+    expected = out.count('"REJECT"')
     while True:
-        i = out.find('<<"REJECT",', pos)
-        if i < 0:
+        mm = rx.search(out, pos)
+        if mm is None:
+            if len(rej) != expected:
+                raise TLCError("REJECT lines: %d printed, %d parsed" % (expected, len(rej)))
             break
+        i = mm.start()
         # TLC wraps long values over several lines: match the closing >> by bracket counting
         depth, j, instr = 0, i, False
         while j < len(out):
